@@ -20,8 +20,14 @@ fn conv_text(kind: &str, x: f32) -> String {
 
 /// judge one conversion; Err(clause, message)
 pub fn judge_time(x: f32) -> Result<(), (&'static str, String)> {
-    let r = match guard(|| f32::from(TimePeriod::from(x))) {
-        Ok(r) => r,
+    let r = match guard(|| {
+        let t = TimePeriod::from(x);
+        let r = f32::from(t);
+        // converting the read-back again changes nothing (a legal value is "unchanged if already inside")
+        (r, f32::from(TimePeriod::from(r)), t == TimePeriod::from(r))
+    }) {
+        Ok((r, r2, same)) if r2.to_bits() == r.to_bits() && same => r,
+        Ok((r, r2, same)) => return Err(("time-clamp", format!("TimePeriod::from({}) reads back {} but converting that again gives {} (equal as TimePeriod: {})", fmt_f32(x), fmt_f32(r), fmt_f32(r2), same))),
         Err(p) => return Err(("panic", format!("TimePeriod::from({}) panicked: {}", fmt_f32(x), p))),
     };
     let ok = if x.is_nan() {
@@ -41,8 +47,13 @@ pub fn judge_time(x: f32) -> Result<(), (&'static str, String)> {
 }
 
 pub fn judge_level(x: f32) -> Result<(), (&'static str, String)> {
-    let r = match guard(|| f32::from(SustainLevel::from(x))) {
-        Ok(r) => r,
+    let r = match guard(|| {
+        let t = SustainLevel::from(x);
+        let r = f32::from(t);
+        (r, f32::from(SustainLevel::from(r)), t == SustainLevel::from(r))
+    }) {
+        Ok((r, r2, same)) if r2.to_bits() == r.to_bits() && same => r,
+        Ok((r, r2, same)) => return Err(("level-clamp", format!("SustainLevel::from({}) reads back {} but converting that again gives {} (equal as SustainLevel: {})", fmt_f32(x), fmt_f32(r), fmt_f32(r2), same))),
         Err(p) => return Err(("panic", format!("SustainLevel::from({}) panicked: {}", fmt_f32(x), p))),
     };
     let ok = if x.is_nan() {
@@ -108,7 +119,29 @@ pub fn sweep_notes(rep: &mut Report) {
             let seen_forbidden = !q.is_allowed(Note::from(n));
             q.allow(&[Note::from(n)]);
             let mask_after_allow: u16 = (0..12u8).filter(|k| q.is_allowed(Note::from(*k))).fold(0, |m, k| m | 1 << k);
-            (got, mask_after_forbid, seen_forbidden, mask_after_allow)
+            // forbid everything, the raw value last: the one note that cannot be removed is the one it acts as
+            let mut q2 = Quantizer::new();
+            let others: Vec<Note> = (0..12u8).filter(|k| *k != n.min(11)).map(Note::from).collect();
+            q2.forbid(&others);
+            q2.forbid(&[Note::from(n)]);
+            let survivor: u16 = (0..12u8).filter(|k| q2.is_allowed(Note::from(*k))).fold(0, |m, k| m | 1 << k);
+            // twin quantizers, one edited through the raw value and one through the value it must act as,
+            // convert the same voltages identically
+            let (mut qa, mut qb) = (Quantizer::new(), Quantizer::new());
+            let mut twin_equal = true;
+            for step in 0..3 {
+                match step {
+                    0 => { qa.forbid(&[Note::from(n), Note::from(3)]); qb.forbid(&[Note::from(n.min(11)), Note::from(3)]); }
+                    1 => { qa.allow(&[Note::from(n)]); qb.allow(&[Note::from(n.min(11))]); }
+                    _ => { qa.forbid(&[Note::from(0), Note::from(n)]); qb.forbid(&[Note::from(0), Note::from(n.min(11))]); }
+                }
+                for k in 0..40 {
+                    let v = -0.1 + 0.2617 * k as f32;
+                    let (a, b) = (qa.convert(v), qb.convert(v));
+                    twin_equal &= a.note_num == b.note_num && a.stairstep.to_bits() == b.stairstep.to_bits() && a.fraction.to_bits() == b.fraction.to_bits();
+                }
+            }
+            (got, mask_after_forbid, seen_forbidden, mask_after_allow, survivor, twin_equal)
         });
         rep.evaluations += 1;
         rep.count("c20.note_arguments", 1);
@@ -117,8 +150,14 @@ pub fn sweep_notes(rep: &mut Report) {
         t.ops.push(format!("note {}", n));
         match res {
             Err(p) => rep.violate(Violation { clause: "panic".into(), signature: format!("C20:panic:{}", p), message: format!("Note::from({}) panicked: {}", n, p), replay: t.to_text() }),
-            Ok((got, mf, sf, ma)) => {
+            Ok((got, mf, sf, ma, survivor, twin_equal)) => {
                 let exp_forbid = 0x0FFFu16 & !(1 << want);
+                if survivor != 1 << want {
+                    rep.violate(Violation { clause: "note-clamp".into(), signature: "C20:note-clamp:survivor".into(), message: format!("note argument {} must act as {}: with every other note forbidden first, forbidding it leaves the scale {:#05x} (expected {:#05x})", n, want, survivor, 1u16 << want), replay: t.to_text() });
+                }
+                if !twin_equal {
+                    rep.violate(Violation { clause: "note-clamp".into(), signature: "C20:note-clamp:twin".into(), message: format!("a quantizer edited through note argument {} converts differently from one edited through {}", n, want), replay: t.to_text() });
+                }
                 if got != want || mf != exp_forbid || !sf || ma != 0x0FFF {
                     rep.violate(Violation { clause: "note-clamp".into(), signature: "C20:note-clamp".into(), message: format!("note argument {} must act as {}: u8::from = {}, scale after forbid {:#05x} (expected {:#05x}), after allow {:#05x}", n, want, got, mf, exp_forbid, ma), replay: t.to_text() });
                 }
